@@ -21,15 +21,49 @@ Theorem C20_rfcomm_params_wf : wf_params_b P = true.
 Proof. vm_compute. reflexivity. Qed.
 Print Assumptions C20_rfcomm_params_wf.
 
+(* ---------- which data links ----------
+   wf_link_b: initial credits 1..7 on each side and each side's maximum frame size accepted by
+   the other end's Multiplexer.acceptable_frame_size (N1 <= 32767, min(N1, L2CAP MTU - 5) >= 23).
+   The ranges of the property text (frame size 23..32767, L2CAP MTU 48..65535) are a special
+   case, and it is exactly what the code enforces (fix D17i): *)
+Theorem C20_property_ranges_are_links : forall ini rsp mtu_i mtu_r,
+  wf_setup_b ini rsp mtu_i mtu_r = true -> wf_link_b ini rsp mtu_i mtu_r = true.
+Proof. exact wf_setup_implies_link. Qed.
+Print Assumptions C20_property_ranges_are_links.
+
+(* Multiplexer.acceptable_frame_size, compiled from the source on every run, is the test
+   the model uses *)
+Theorem C20_acceptable_matches_source : forall n m, src_acceptable n m = acceptable n m.
+Proof. exact src_acceptable_ok. Qed.
+Print Assumptions C20_acceptable_matches_source.
+
+(* every data link the code lets come up satisfies the hypothesis of the theorems below:
+   both acceptance tests passed (responder on the PN command, initiator on the PN response),
+   the configured credit counts are 1..7 and the configured frame sizes fit the PN field *)
+Theorem C20_accepted_links_satisfy_hypotheses : forall ini rsp mtu_i mtu_r,
+  credits_ok_b ini = true -> credits_ok_b rsp = true ->
+  0 <= pn_mfs ini < 65536 -> 0 <= pn_mfs rsp < 65536 ->
+  src_acceptable (pn_mfs (pn_wire ini)) mtu_i = true ->
+  src_acceptable (pn_mfs (pn_wire rsp)) mtu_r = true ->
+  wf_link_b ini rsp mtu_i mtu_r = true.
+Proof. exact accepted_links_wf. Qed.
+Print Assumptions C20_accepted_links_satisfy_hypotheses.
+
+(* and no other: the model's outcome of the negotiation is "up" exactly when both tests pass *)
+Theorem C20_negotiation_up_iff_accepted : forall ini rsp mtu_i mtu_r,
+  pn_negotiate ini rsp mtu_i mtu_r = 2 <->
+  src_acceptable (pn_mfs (pn_wire ini)) mtu_i = true /\ src_acceptable (pn_mfs (pn_wire rsp)) mtu_r = true.
+Proof. exact pn_negotiate_up. Qed.
+Print Assumptions C20_negotiation_up_iff_accepted.
+
 (* ---------- one data link ----------
-   For every negotiated pair of (max frame size 23..32767, initial credits 1..7),
-   every L2CAP MTU 48..65535 on each side, and EVERY schedule of writes (any sizes,
-   any bytes) and single-frame deliveries in both directions: *)
+   For every such link and EVERY schedule of writes (any sizes, any bytes) and single-frame
+   deliveries in both directions: *)
 
 (* bytes received ++ bytes in flight ++ bytes not yet sent = bytes written, in order,
    in both directions *)
 Theorem C20_stream_exact : forall ini rsp mtu_i mtu_r ls,
-  wf_setup_b ini rsp mtu_i mtu_r = true ->
+  wf_link_b ini rsp mtu_i mtu_r = true ->
   let s := Rfcomm.run P (setup ini rsp mtu_i mtu_r) ls in
   s_rcv_b s ++ flight_data (s_ab s) ++ d_tx_buf (s_a s) = writes_a ls /\
   s_rcv_a s ++ flight_data (s_ba s) ++ d_tx_buf (s_b s) = writes_b ls.
@@ -40,7 +74,7 @@ Print Assumptions C20_stream_exact.
    than its L2CAP MTU minus the 5-byte frame envelope; a credit-bearing frame has a
    credit byte in 1..255 *)
 Theorem C20_payload_le_max : forall ini rsp mtu_i mtu_r ls,
-  wf_setup_b ini rsp mtu_i mtu_r = true ->
+  wf_link_b ini rsp mtu_i mtu_r = true ->
   let s := Rfcomm.run P (setup ini rsp mtu_i mtu_r) ls in
   Forall (fun f => Z.of_nat (List.length (f_info f)) <= Z.min (pn_mfs rsp) (mtu_r - 5)
                    /\ frame_wf (d_mtu (s_a (setup ini rsp mtu_i mtu_r))) f) (s_ab s) /\
@@ -53,7 +87,7 @@ Print Assumptions C20_payload_le_max.
    flight = receiver's count), a sender's count is never negative (data is only sent
    against a credit) and a receiver's count is at least 1 *)
 Theorem C20_credit_safe : forall ini rsp mtu_i mtu_r ls,
-  wf_setup_b ini rsp mtu_i mtu_r = true ->
+  wf_link_b ini rsp mtu_i mtu_r = true ->
   let s := Rfcomm.run P (setup ini rsp mtu_i mtu_r) ls in
   d_tx_credits (s_a s) + n_data (s_ab s) + sum_credits (s_ba s) = d_rx_credits (s_b s) /\
   d_tx_credits (s_b s) + n_data (s_ba s) + sum_credits (s_ab s) = d_rx_credits (s_a s) /\
@@ -65,7 +99,7 @@ Print Assumptions C20_credit_safe.
 (* credit replenishment keeps transfers going: whenever nothing is in flight, nothing
    is waiting to be sent and everything written has reached the peer's sink *)
 Theorem C20_progress : forall ini rsp mtu_i mtu_r ls,
-  wf_setup_b ini rsp mtu_i mtu_r = true ->
+  wf_link_b ini rsp mtu_i mtu_r = true ->
   let s := Rfcomm.run P (setup ini rsp mtu_i mtu_r) ls in
   s_ab s = [] -> s_ba s = [] ->
   d_tx_buf (s_a s) = [] /\ d_tx_buf (s_b s) = [] /\
@@ -77,7 +111,7 @@ Print Assumptions C20_progress.
    alone (no further cooperation of the writers) empties both channels with everything
    written delivered - no deadlock, no endless exchange of credit frames *)
 Theorem C20_progress_drains : forall ini rsp mtu_i mtu_r ls,
-  wf_setup_b ini rsp mtu_i mtu_r = true ->
+  wf_link_b ini rsp mtu_i mtu_r = true ->
   exists n,
     let s := Rfcomm.run P (setup ini rsp mtu_i mtu_r) (ls ++ drain_sched n) in
     s_ab s = [] /\ s_ba s = [] /\ s_rcv_b s = writes_a ls /\ s_rcv_a s = writes_b ls.
@@ -86,7 +120,7 @@ Print Assumptions C20_progress_drains.
 
 (* the transmit loop never runs out of the fuel the model gives it *)
 Theorem C20_model_fuel : forall ini rsp mtu_i mtu_r ls,
-  wf_setup_b ini rsp mtu_i mtu_r = true -> s_ok (Rfcomm.run P (setup ini rsp mtu_i mtu_r) ls) = true.
+  wf_link_b ini rsp mtu_i mtu_r = true -> s_ok (Rfcomm.run P (setup ini rsp mtu_i mtu_r) ls) = true.
 Proof. intros ini rsp mtu_i mtu_r ls H. exact (fuel_ok P ini rsp mtu_i mtu_r C20_rfcomm_params_wf H ls). Qed.
 Print Assumptions C20_model_fuel.
 
@@ -101,7 +135,7 @@ Print Assumptions C20_dlcs_independent.
 (* hence each link of a multiplexer set up with any number of links has the
    single-link guarantees, for the bytes written on THAT link *)
 Theorem C20_mux_links : forall cfg mtu_i mtu_r d ini rsp ls,
-  wf_setup_b ini rsp mtu_i mtu_r = true -> cfg_get d cfg = Some (ini, rsp) ->
+  wf_link_b ini rsp mtu_i mtu_r = true -> cfg_get d cfg = Some (ini, rsp) ->
   exists x, proj d (mrun P (msetup cfg mtu_i mtu_r) ls) = Some x /\
     let sl := proj_sched P d (msetup cfg mtu_i mtu_r) ls in
     s_rcv_b x ++ flight_data (s_ab x) ++ d_tx_buf (s_a x) = writes_a sl /\
@@ -146,7 +180,8 @@ Print Assumptions C20_d20d_unfixed_refuted.
    two accepted channels and one refused channel, one open_dlc in flight at a time (the
    multiplexer's single OPENING state / open_result, as in the code), every schedule of
    connect / open(d) / disconnect(d) by either end / multiplexer disconnect / orderly
-   close / deliveries (3 403 reachable states, complete evaluation + closure lemma):
+   close / deliveries, plus opens whose proposed frame size the responder refuses (5 009
+   reachable states, complete evaluation + closure lemma):
    no open_dlc is ever resolved with the wrong outcome (another link's DLC, refused
    although accepted, ...), and whenever nothing is in flight both ends' DLC tables and
    states match and no open_dlc is left pending *)
@@ -184,6 +219,14 @@ Theorem C20_responder_muxdisc_refuted :
   e_pend (t_a s) = Some 0%nat /\ slot (t_a s) 0 = None /\ slot (t_b s) 0 = Some DConnecting.
 Proof. exact responder_muxdisc_refuted. Qed.
 Print Assumptions C20_responder_muxdisc_refuted.
+
+(* outside the property's range: a responder CONFIGURED with an unacceptable frame size *)
+Theorem C20_responder_misconfigured_refuted :
+  let s := sm2_runx sm2_init misconfigured_witness in
+  quiescent2 s = true /\ agree2 s = false /\
+  e_pend (t_a s) = None /\ slot (t_a s) 0 = None /\ slot (t_b s) 0 = Some DConnecting.
+Proof. exact responder_misconfigured_refuted. Qed.
+Print Assumptions C20_responder_misconfigured_refuted.
 
 (* ---------- the models are what the source does (re-checked on every run) ----------
    Gen/C20MuxEff.v is compiled from the source of the Multiplexer / DLC frame handlers and
@@ -361,7 +404,7 @@ Example C20_nonvacuous_data :
   let s := Rfcomm.run P (setup (mkPn 23 1) (mkPn 32767 7) 48 65535)
                [WriteA (repeat 7 100); WriteB [1; 2; 3]; Rfcomm.DeliverAB; Rfcomm.DeliverBA; Rfcomm.DeliverBA; Rfcomm.DeliverAB;
                 Rfcomm.DeliverAB; Rfcomm.DeliverBA; Rfcomm.DeliverAB; Rfcomm.DeliverBA] in
-  wf_setup_b (mkPn 23 1) (mkPn 32767 7) 48 65535 = true /\
+  wf_setup_b (mkPn 23 1) (mkPn 32767 7) 48 65535 = true /\ wf_link_b (mkPn 23 1) (mkPn 32767 7) 28 65535 = true /\
   s_rcv_b s = repeat 7 100 /\ s_rcv_a s = [1; 2; 3] /\ s_ab s = [] /\ s_ba s = [].
 Proof. vm_compute. repeat split. Qed.
 
